@@ -53,6 +53,8 @@ def parts_of(t, obj, path=()):
     elif t["k"] == "array" and t["item"]["k"] in ("struct", "array"):
         shape = [int(d) for d in obj._shape]
         n = int(np.prod(shape)) if shape else 0
+        if n > 100000 or n < 0:
+            raise ValueError("array reports %d items" % n)     # a damaged header: do not walk it
         for c in range(n):
             idx = unravel(c, shape)
             sub = obj[idx if len(idx) > 1 else idx[0]]
